@@ -49,6 +49,9 @@ type Parser struct {
 	// escape sequence
 	escTimeout *time.Timer
 	mu         sync.Mutex
+	// done is set, with mu held, once run has left its loop. The escTimeout
+	// callback must not emit after that: the channel is about to be closed
+	done bool
 
 	oscData []rune
 	apcData []rune
@@ -130,6 +133,9 @@ outer:
 	if p.escTimeout != nil {
 		p.escTimeout.Stop()
 	}
+	p.mu.Lock()
+	p.done = true
+	p.mu.Unlock()
 	p.emit(EOF{})
 	close(p.sequences)
 	p.closed <- true
@@ -464,11 +470,14 @@ func anywhere(r rune, p *Parser) stateFn {
 		}
 		p.clear()
 		p.escTimeout = time.AfterFunc(10*time.Millisecond, func() {
-			p.emit(C0(0x1B))
 			p.mu.Lock()
+			defer p.mu.Unlock()
+			if p.done {
+				return
+			}
+			p.emit(C0(0x1B))
 			p.state = ground
 			p.ignoreST = false
-			p.mu.Unlock()
 		})
 		return escape
 	default:
